@@ -185,6 +185,16 @@ pub fn run(tier: Tier) -> i32 {
         projects.push(("wide".into(), pack(&[(s(segs), s(rev))], 0)));
     }
 
+    // "in the effective locale ... nothing taken from another locale": the value kinds under every inherits map of a
+    // four-locale set (the generator of the C03 check: presence patterns, groups, values rendering as nothing)
+    {
+        let locs = ["en", "fr", "de", "it"];
+        for m in vmodel::gen::inherits_maps(&locs) {
+            let (p, _) = vmodel::gen::build_project(&locs, &m);
+            projects.push(("inherits".into(), p));
+        }
+    }
+
     let n_values = values.len();
     par_for(projects.len(), |w, i| {
         let (part, p) = &projects[i];
@@ -206,7 +216,7 @@ pub fn run(tier: Tier) -> i32 {
     }
     let mut cov = serde_json::Map::new();
     cov.insert("rule".into(), json!(format!(
-        "every forest of Text|Var{{x,y}}|Comp{{b,i}} with <= {max_nodes} nodes (sizes {per_size:?}), labelled with self-identifying text and rotating payloads {:?}; every whitespace combination at the 5 tag and 2 variable positions on <= 2-node forests; every ordered payload pair in 7 contexts; all pairs of 14 literal values; each value placed at top level, in subkeys depth 3 and in two namespaces with swapped values; distinct_nontrivial = distinct (en,fr) value pairs", PAYLOADS)));
+        "every forest of Text|Var{{x,y}}|Comp{{b,i}} with <= {max_nodes} nodes (sizes {per_size:?}), labelled with self-identifying text and rotating payloads {:?}; every whitespace combination at the 5 tag and 2 variable positions on <= 2-node forests; every ordered payload pair in 7 contexts; all pairs of 14 literal values; the value kinds under every inherits map of a four-locale set (625 projects: presence patterns, groups, values rendering as nothing); each value placed at top level, in subkeys depth 3 and in two namespaces with swapped values; distinct_nontrivial = distinct (en,fr) value pairs", PAYLOADS)));
     cov.insert("exhaustive".into(), json!(true));
     cov.insert("bound".into(), json!({"max_nodes": max_nodes, "ws_values": ws_vals.len(), "projects": projects.len(), "keys_per_project": chunk}));
     cov.insert("key_locale_comparisons".into(), json!(*keys_total.lock().unwrap()));
